@@ -170,10 +170,29 @@ def gen_random_rows(rng, maxrows=60):
 
 
 def run_random(shard, ctx):
+    from tola.assembly.scaffold import Scaffold
+
     for i in range(shard["n"]):
         rng = rng_for(shard["seed"], "c12r", shard["index"], i)
         rows = gen_random_rows(rng)
-        ia = _mk(rows)
+        if i % 7 == 3:
+            # a chromosome longer than 2**32 bp (lungfish-sized): lengths are plain integers
+            k = rng.randrange(len(rows))
+            rows[k] = ["F", f"big{k}", 1, rng.randint(2**32, 6 * 10**9), 1, []] if rows[k][0] == "F" else ["G", rng.randint(2**32, 5 * 10**9), "scaffold"]
+            ctx.count("class:scaffold-longer-than-2^32")
+        try:
+            ia = _mk(rows)
+        except Exception as e:  # noqa: BLE001
+            ctx.violation(f"indexing-scaffold-raised-{type(e).__name__}", f"IndexedAssembly(...) raised {type(e).__name__}: {e}; rows={rows[:6]}", {"kind": "query", "rows": rows, "a": 1, "b": 1})
+            continue
+        if i % 5 == 2:
+            # a second scaffold of the same name is refused - and must leave the first one usable
+            other = build_scaffold(["s", gen_random_rows(rng)])
+            try:
+                ia.add_scaffold(other)
+                ctx.count("note:duplicate-name-accepted")
+            except ValueError:
+                ctx.count("class:lookup-after-refused-duplicate-add")
         bounds = [0]
         for r in rows:
             bounds.append(bounds[-1] + (r[3] - r[2] + 1 if r[0] == "F" else r[1]))
@@ -243,6 +262,8 @@ def gates(c, tier):
         "outcome:found": 1000,
         "outcome:none": 100,
         "insitu:queries": 100,
+        "class:scaffold-longer-than-2^32": 50,
+        "class:lookup-after-refused-duplicate-add": 50,
         "monitor_evals:find_overlaps": 1000,
     }
     return [f"{k}>={v} (got {c.get(k, 0)})" for k, v in need.items() if c.get(k, 0) < v]
